@@ -289,6 +289,9 @@ class Ocp(Stage):
         self._untranscribe()
         # After an edit the transcription is flagged stale but its (unpicklable) Opti instance is still attached
         self._untranscribe_recurse(phase=1)
+        # ... possibly to a method object that was replaced since: a stale transcribed copy is never reused, drop it
+        if self._is_original and not self._is_transcribed:
+            self._var_augmented = None
         import pickle
         with rockit_pickle_context():
             pickle.dump(self,open(name,"wb"))
